@@ -154,9 +154,26 @@ def project(rho, dims, pos, k):
     idx[pos] = k
     idx[n + pos] = k
     T = T[tuple(idx)]
+    if not isinstance(T, np.ndarray):  # every subsystem projected: a scalar
+        w = zeros((1, 1), rho)
+        w[0, 0] = T
+        T = w
     nd = [d for i, d in enumerate(dims) if i != pos]
     D = int(np.prod(nd)) if nd else 1
     return T.reshape(D, D), nd
+
+
+def project_keep(rho, dims, pos, k):
+    """unnormalised post-measurement state with the measured subsystem kept in |k><k|"""
+    n = len(dims)
+    T = rho.reshape(list(dims) + list(dims))
+    out = zeros(tuple(list(dims) + list(dims)), rho)
+    idx = [slice(None)] * (2 * n)
+    idx[pos] = k
+    idx[n + pos] = k
+    out[tuple(idx)] = T[tuple(idx)]
+    D = int(np.prod(dims)) if dims else 1
+    return out.reshape(D, D)
 
 
 def diag_marginal(rho, dims, pos):
